@@ -188,7 +188,7 @@ def after_provision(c):
              {"op": "start_key_keeper", "interval_ms": 40}, {"op": "sleep", "ms": 600},
              plan("GET /secure-channel/status", 200, status_doc(G[0])), {"op": "sleep", "ms": 200},
              {"op": "key_state", "tag": "latched"}, {"op": "provision_timeup"}, {"op": "sleep", "ms": 200}]
-    ev, d, _ = rig.run_rig({"steps": steps, "drain_ms": 100}, name, timeout=120)
+    ev, d, _ = rig.run_rig({"steps": steps, "drain_ms": 100}, name, timeout=600)
     keydir = os.path.join(d, "keys")
     if not any(e["e"] == "ProvisionTimeup" for e in ev) or not any(e["e"] == "KeyState" and e.get("guid") for e in ev):
         raise util.ToolError("after-provision run: key not latched or the deadline handler did not run")
@@ -231,7 +231,7 @@ def crash_leftovers(c, needles):
                     % (sl, k, exe))
         try:
             p = subprocess.run(["unshare", "-n", "sh", "-c", rig.NS_SETUP + " && exec " + launcher], env=env, cwd=d,
-                               stdout=subprocess.PIPE, stderr=subprocess.STDOUT, timeout=120, text=True, errors="replace")
+                               stdout=subprocess.PIPE, stderr=subprocess.STDOUT, timeout=600, text=True, errors="replace")
         except subprocess.TimeoutExpired:
             raise util.ToolError("kill-injection run %s timed out" % name)
         killed = "SIGKILL" in (open(sl, errors="replace").read() if os.path.exists(sl) else "") or p.returncode not in (0,)
@@ -259,14 +259,14 @@ def crash_leftovers(c, needles):
 def run(c):
     c.assumptions = ASSUME
     build.cargo_build("agent")
-    r1 = c.tlc("KeySecret", "KeySecret_redacted.cfg", workers=2, timeout=120,
+    r1 = c.tlc("KeySecret", "KeySecret_redacted.cfg", workers=2, timeout=600,
                required_actions=["AcquireOk", "AcquireNonHex", "AcquireMalformed", "FetchLocal", "PublishStatus", "ProvisionQuery", "ProxySign",
                                  "UndeliveredReply", "AcquireNon200", "CrashDuringStore"])
     if r1.violated:
         raise tlcmod.TlcError("KeySecret.tla (redacted design) violates %s" % r1.invariant_violated)
-    r2 = c.tlc("KeySecret", "KeySecret_asfound.cfg", workers=2, timeout=120, expect_ok=False)
+    r2 = c.tlc("KeySecret", "KeySecret_asfound.cfg", workers=2, timeout=600, expect_ok=False)
     c.extra["design_quoting_key_in_errors_leaks"] = bool(r2.invariant_violated)
-    r3 = c.tlc("KeySecret", "KeySecret_stageout.cfg", workers=2, timeout=120, expect_ok=False)
+    r3 = c.tlc("KeySecret", "KeySecret_stageout.cfg", workers=2, timeout=600, expect_ok=False)
     c.extra["design_staging_key_outside_key_dir_leaks"] = bool(r3.invariant_violated)
     name = "c12_rig"
     d0 = os.path.join(util.RUNDIR, name)
@@ -328,7 +328,7 @@ def run(c):
               {"op": "key_state", "tag": "disabled"}] + traffic("t5") + [{"op": "mark", "tag": "phase:disable"}]
     steps += [{"op": "sleep", "ms": 500}, {"op": "snapshot", "tag": "final", "status_file": os.path.join(status_dir, "status.json")}]
     ev, d, _ = rig.run_rig({"steps": steps, "status_task": {"interval_ms": 50, "dir": status_dir}, "event_logger": True, "drain_ms": 400},
-                           name, timeout=300, keep_output=True,
+                           name, timeout=1200, keep_output=True,
                            strace="mkdir,mkdirat,chmod,fchmod,fchmodat,chown,fchown,fchownat,openat,creat,rename,renameat,renameat2")
     kc = next((e for e in ev if e["e"] == "KeyCallsCancelled"), {})
     c.extra["key_calls_dropped_before_reply"] = kc.get("dropped", 0)
